@@ -53,8 +53,17 @@ func (m *Mutex) Unlock() {
 // never explored as violations of mutual exclusion, only as less concurrency).
 type RWMutex struct{ Mutex }
 
-func (m *RWMutex) RLock()   { m.Lock() }
-func (m *RWMutex) RUnlock() { m.Unlock() }
+func (m *RWMutex) RLock()         { m.Lock() }
+func (m *RWMutex) RUnlock()       { m.Unlock() }
+func (m *RWMutex) TryRLock() bool { return m.TryLock() }
+func (m *RWMutex) RLocker() gosync.Locker {
+	return rlocker{m}
+}
+
+type rlocker struct{ m *RWMutex }
+
+func (r rlocker) Lock()   { r.m.RLock() }
+func (r rlocker) Unlock() { r.m.RUnlock() }
 
 // pass-throughs for things that are not scheduling points of the modelled code
 type (
@@ -63,4 +72,10 @@ type (
 	Pool      = gosync.Pool
 	Map       = gosync.Map
 	Locker    = gosync.Locker
+	Cond      = gosync.Cond
 )
+
+func NewCond(l gosync.Locker) *gosync.Cond                     { return gosync.NewCond(l) }
+func OnceFunc(f func()) func()                                 { return gosync.OnceFunc(f) }
+func OnceValue[T any](f func() T) func() T                     { return gosync.OnceValue(f) }
+func OnceValues[T1, T2 any](f func() (T1, T2)) func() (T1, T2) { return gosync.OnceValues(f) }
